@@ -38,6 +38,17 @@ def bwStep (b : Bucket) (toks : List String) : Bucket × String :=
   | ["abandon", tok] => match tok.toNat? with
     | some tok => (abandon b tok, "ok")
     | none => (b, "bad-op")
+  | "stream" :: amt :: tok :: its => match amt.toNat?, tok.toNat?, its.mapM (fun (x : String) =>
+        match x.splitOn ":" with
+        | [n, e] => match parseRat? n with
+          | some n => some (n, e == "1")
+          | none => none
+        | _ => none) with
+    | some amt, some tok, some its =>
+      let r := streamLoop b amt tok its
+      (r.1, "ev=" ++ joinWith "," (r.2.map fun e => match e with
+        | .consumed => "consumed" | .slept _ => "slept" | .raisedTransferError => "raised"))
+    | _, _, _ => (b, "bad-op")
   | ["state"] => (b, s!"total={showRat b.totalWait} sched={showNatList (b.sched.map (·.token))} rate={showRate b.rate}")
   | _ => (b, "bad-op")
 
